@@ -214,6 +214,7 @@ pub fn main(args: &[String]) -> i32 {
     let foldzero_pct: u32 = o.num("foldzero", 4u32);
     let wide: usize = o.num("wide", 0);
     let wide_every: usize = o.num("wideevery", 12usize).max(2);
+    let wide_first = o.num("widefirst", 0u32) == 1;
     // backlog of untracked filler records (keys outside the universe of the trace): more than one
     // allocation-journal batch (1024 entries) queued in front of the tracked writes
     let fillers: usize = o.num("fillers", 0);
@@ -248,7 +249,9 @@ pub fn main(args: &[String]) -> i32 {
             // one call per coordinator period: every write sits alone in its shard when the tick comes
             std::thread::sleep(std::time::Duration::from_millis(trickle_ms));
         }
-        if wide > 0 && step % wide_every == wide_every / 2 {
+        // --widefirst: the wide batch is the FIRST thing every session writes (the first allocation-journal image after
+        // an open is a multi-sector one: which slot it goes to, and what the other slot still holds, matters when it tears)
+        if wide > 0 && (step % wide_every == wide_every / 2 || (wide_first && step == 0)) {
             // one batch with many records (allocation journal longer than one 512-byte sector),
             // then an acknowledged flush
             for round in 0..2 {
@@ -432,6 +435,49 @@ pub fn main(args: &[String]) -> i32 {
             obs::api("vtick", &[], now, 0, 0);
         }
     }
+    // --cleanrestart: every second restart happens on a quiescent device (an acknowledged flush, then the process is
+    // killed): the recovery that follows has nothing to repair, so the first thing written after the open is the next
+    // session's own first batch
+    let clean_restart = o.num("cleanrestart", 0u32) == 1 && session % 2 == 0;
+    if session + 1 < sessions && clean_restart {
+        // the last thing the device sees before it goes quiet is a batch of FRESH records (their keys were deleted and
+        // the deletions retired first): the allocation-journal slot that is not the newest keeps that batch's intent,
+        // which lists live records
+        let victims: Vec<usize> = (0..keys.len()).filter(|i| cur_val.contains_key(&(i + 1)) && keys[*i].len() < 100).take(3).collect();
+        for round in 0..2 {
+            for &ki in &victims {
+                let (key, kid) = (keys[ki].clone(), ki + 1);
+                let call_idx = calls.len() as u64;
+                obs::api("api_call", &key, call_idx, 0, 0);
+                if round == 0 {
+                    let ok = store.delete(&key).is_ok();
+                    if ok { cur_val.remove(&kid); }
+                    calls.push(CallInfo { kid, key: key.clone(), gen: None, deleted: ok });
+                } else {
+                    let val = vec![b'v'; 40 + ki];
+                    calls.push(match store.insert(&key, &val) {
+                        Ok(_) => {
+                            let r = store.verif_record(&key).expect("record after insert");
+                            cur_val.insert(kid, val.clone());
+                            CallInfo { kid, key: key.clone(), gen: Some((r.timestamp, r.ttl_expiry, val)), deleted: false }
+                        }
+                        Err(_) => CallInfo { kid, key: key.clone(), gen: None, deleted: false },
+                    });
+                }
+                obs::api("api_ret", &key, call_idx, 0, 0);
+            }
+            let id = flushes.len() as u64;
+            obs::api("flush_begin", &[], id, 0, 0);
+            let res = store.flush();
+            flushes.push(FlushInfo { ok: res.is_ok(), snap: snapshot(&store, &keys) });
+            obs::api("flush_end", &[], id, res.is_ok() as u64, 0);
+        }
+        let id = flushes.len() as u64;
+        obs::api("flush_begin", &[], id, 0, 0);
+        let res = store.flush();
+        flushes.push(FlushInfo { ok: res.is_ok(), snap: snapshot(&store, &keys) });
+        obs::api("flush_end", &[], id, res.is_ok() as u64, 0);
+    }
     if session + 1 < sessions {
         // ---- crash and restart: the process "dies" at a random device event of this session, some
         // subset of the un-synced blocks reaches the platter, and the next session recovers that image
@@ -446,7 +492,7 @@ pub fn main(args: &[String]) -> i32 {
             let (a, b) = (&raw1[w[0]], &raw1[w[1]]);
             if a.kind == "w" && (a.a == 1 || a.a == 4) && b.kind == "fsync" && w[1] > raw1.len() / 4 { jpoints.push(w[1]); }
         }
-        let cut = if dev_idx.is_empty() { raw1.len() }
+        let cut = if dev_idx.is_empty() || clean_restart { raw1.len() }
             else if !jpoints.is_empty() && rng.random_bool(0.6) { jpoints[rng.random_range(0..jpoints.len())] + 1 }
             else { dev_idx[dev_idx.len() * 2 / 3 + rng.random_range(0..(dev_idx.len() - dev_idx.len() * 2 / 3))] + 1 };
         raw1.truncate(cut);
@@ -504,7 +550,7 @@ pub fn main(args: &[String]) -> i32 {
         }
         restart_reports.push(store_report(&store, &keys));
         obs::api("restarted", &[], restart_reports.len() as u64 - 1, now, 0);
-        if rng.random_bool(0.6) {
+        if rng.random_bool(0.6) && !wide_first {
             // acknowledged deletes right after a restart: anything stale that recovery left on the
             // device would come back after the next crash
             for (i, k) in keys.iter().enumerate() {
